@@ -259,6 +259,12 @@ PROPERTY_META = {
         explanation="C13: constructors of tree nodes request exactly-sized blocks from parse_alloc and write only those."),
     "C04": dict(trusted_base=TB_COMMON, assumptions=A_COMMON + ["A-COST: subtree cost totals stay below INT_MAX"], unverified=["recursive cases of prune_to_minimal (sum over children, minimum over alternatives)", "that make_parse built all derivations first (C03)"],
         explanation="C04: base cases of the pruning recursion, cost copy, single restoration of shared nodes."),
+    "C16": dict(trusted_base=TB_COMMON + ["staging rule R9: the rewriting of the members of class yaep to C (qualified name -> prefixed function with an explicit object parameter, this-> -> this_->; bodies verbatim) is trusted"],
+        assumptions=A_COMMON + ["A-CXX: a C++ member call passes the object and the arguments like the C call the extraction writes; construction / destruction of the object itself (new / delete) is not modelled",
+                                "the rest of libyaep++ is yaep.c itself compiled as C++ over the macro layer of yaep.cpp: identical text, so agreement reduces to the container twins (bounded native stand-ins HT.cpp.native, OSVLO.cpp.native) and is observed end to end by X.diff.native (bounded)"],
+        unverified=["hashtab.cpp / objstack.cpp / vlobject.cpp as contracts (CBMC's C++ front end rejects class os and contract syntax): bounded native stand-ins only", "the macro layer of yaep.cpp (29 one-line macros) is exercised, not proved",
+                    "differences a C++ compiler may introduce when compiling yaep.c as C++"],
+        explanation="C16: interface layer proved (each member forwards to its C function once, same object, same arguments, same result); the rest bounded: both real libraries driven side by side."),
     "C12": dict(trusted_base=TB_COMMON, assumptions=A_COMMON, unverified=["absence of UB inside build_new_set, expand_new_start_set, error_recovery, make_parse, yyparse", "bounded time (termination)"],
         explanation="C12: all built-in safety classes of every function under contract (aggregated) + targeted anchors (message buffer, code vector, lexer, parser-list size)."),
 }
